@@ -15,11 +15,13 @@ import hashlib, json, os, re, signal, subprocess, time
 from concurrent.futures import ThreadPoolExecutor
 import vlib, fixture
 
+# lock.releasing is the last hook point of every invocation that got the lock (emitted while the lock is still held, on
+# success and on error paths alike): the specification's `done` state; the process exit after it is the Finish step
 HOLDS = {"run": ["lock.trying", "lock.acquired", "run.id_chosen", "run.slot_removed", "run.slot_created", "run.planned",
-                 "run.executed", "run.result_stored"],
-         "cp_update": ["lock.trying", "lock.acquired", "cp.truncated"],
-         "cp_delete": ["lock.trying", "lock.acquired"],
-         "out_delete": ["lock.trying", "lock.acquired"]}
+                 "run.executed", "run.result_stored", "lock.releasing"],
+         "cp_update": ["lock.trying", "lock.acquired", "cp.truncated", "lock.releasing"],
+         "cp_delete": ["lock.trying", "lock.acquired", "lock.releasing"],
+         "out_delete": ["lock.trying", "lock.acquired", "lock.releasing"]}
 PATHS = {"af": "a/f", "bf": "b/f", "cf": "c/f"}
 TARGETS = [{"path": "a"}, {"path": "b", "uses": ["a/f"]}, {"path": "c"}]
 NSLOTS = 2
@@ -200,6 +202,7 @@ class Replay:
         self.ntag = 0
         self.run_crashed = False
         self.steps_done = 0
+        self.expect_ok = {}      # model process -> True (exit 0) | False (failure) | None (unspecified) at its Finish step
 
     def mm(self, tag, why, i):
         self.mismatches.append((tag, why, i))
@@ -325,7 +328,8 @@ class Replay:
             if pre["canstart"]:
                 self.expect_point(got, "run.id_chosen", self.store_tag(), "run start", i)
             else:
-                self.expect_exit(got, False, self.store_tag(), "run start with an unparsable pointer", i)
+                self.expect_point(got, "lock.releasing", self.store_tag(), "run start with an unparsable pointer", i)
+                self.expect_ok[p] = False
         elif a == "RunEffect":
             pr = self.procs[p]
             eff, r, k = x
@@ -339,12 +343,8 @@ class Replay:
             if eff in nxt:
                 self.expect_point(got, nxt[eff], self.store_tag(), "run effect " + eff, i)
             else:
-                if self.expect_exit(got, True, self.store_tag(), "run completion", i):
-                    doc = pr.stdout_json()
-                    want = sorted("/".join(t) for t in self.run_targets.get(p, []))
-                    got_t = sorted(((doc or {}).get("out", {}).get("run", {}).get("targets") or {}).keys())
-                    if got_t != want:
-                        self.mm("C05", "the run covered %s where the change set at its read instant affects %s" % (got_t, want), i)
+                self.expect_point(got, "lock.releasing", self.store_tag(), "run effect ptrwrite", i)
+                self.expect_ok[p] = True
         elif a == "RunReadRepo":
             pr = self.procs[p]
             self.rmap.setdefault(x[0], pr.tag)
@@ -353,20 +353,33 @@ class Replay:
                 self.expect_point(got, "run.planned", self.store_tag(), "run planning", i)
                 self.run_targets[p] = post["obs"]["targets"]
             else:
-                self.expect_exit(got, False, "C19", "run with a truncated checkpoint file", i)
+                self.expect_point(got, "lock.releasing", "C19", "run with a truncated checkpoint file", i)
+                self.expect_ok[p] = False
         elif a == "CpReadTruncate":
             pr = self.procs[p]
             got = pr.step()
             if pre["cpfile"] == "ok":
                 self.expect_point(got, "cp.truncated", "C19", "checkpoint update", i)
             else:
-                self.expect_exit(got, False, "C19", "checkpoint update with a truncated checkpoint file", i)
+                self.expect_point(got, "lock.releasing", "C19", "checkpoint update with a truncated checkpoint file", i)
+                self.expect_ok[p] = False
         elif a in ("CpWrite", "CpDelete", "OutDelete"):
             pr = self.procs[p]
             got = pr.step()
+            self.expect_point(got, "lock.releasing", "C19", a, i)
             # `checkpoint delete` without a checkpoint and `out delete --all` without an out directory report an error:
-            # the exit status is not part of the specification's state, only that the invocation ends here
-            self.expect_exit(got, True if a == "CpWrite" else None, "C19", a, i)
+            # their exit status is not part of the specification's state
+            self.expect_ok[p] = True if a == "CpWrite" else None
+        elif a == "Finish":
+            pr = self.procs[p]
+            got = pr.step()
+            want_ok = self.expect_ok.get(p)
+            if self.expect_exit(got, want_ok, "C14" if want_ok is None else self.store_tag(), "exit of " + pr.api, i) and pr.api == "run" and want_ok:
+                doc = pr.stdout_json()
+                want = sorted("/".join(t) for t in self.run_targets.get(p, []))
+                got_t = sorted(((doc or {}).get("out", {}).get("run", {}).get("targets") or {}).keys())
+                if got_t != want:
+                    self.mm("C05", "the run covered %s where the change set at its read instant affects %s" % (got_t, want), i)
         elif a == "Crash":
             pr = self.procs[p]
             pr.kill()
